@@ -31,6 +31,14 @@ CHECKS["C07"] = (
     "5/C07",
 )
 
+CHECKS["C18"] = (
+    "SubseqOps.tla + Subseq.tla + SubseqGen.tla + TraceSubseq.tla",
+    "TLC: the bit scan of subseq_segment_dist as a state machine with its loop invariant, equal to the declarative run count for every (child, parent, edges) of the bound; TLC-generated rows and mask tables replayed through the four functions; recorded calls on wider masks validated by a TLA+ trace spec",
+    "Model checking of the scan machine against the declarative definition (every mask pair up to 8/10 bits, both end modes) plus bounded-exhaustive spec->code replay of every entry and trace validation of random wider calls.",
+    "Trusts TLC and the declarative SegDist/SubseqOf/MaskOf of SubseqOps.tla (two formulations cross-checked by StartsInv); masks below 2^24; sequences of distinct elements.",
+    "5/C18",
+)
+
 NOT_YET = {}
 
 
